@@ -6,7 +6,8 @@ import RV.Driver.Util
 
     basic  N Na tp ignore shifted ngx ngy ngz G soft bsx bsy bsz  (m x y z)*N
     comp   N Na tp ignore G soft                                  (m x y z)*N
-    jacobi N G                                                    (m x y z)*N
+    jacobi N Na G                                                 (m x y z)*N
+    shear  N Na tp ignore ngx ngy ngz G soft bsx bsy bsz OMEGA t  (m x y z)*N   (BASIC, shear ghost boxes)
     merc0  N Na tp Lkind G soft                                   (m x y z)*N dcrit*N
     merc1  N tp Lkind G soft encN encNa    (m x y z)*N dcrit*N map*encN (ax ay az)*N
     trace0 N Na tp G soft                                         (m x y z)*N ks
@@ -18,6 +19,29 @@ import RV.Driver.Util
 open RV RV.Driver RV.Gravity
 
 def nat (s : String) : Nat := s.toNat?.getD 0
+
+/-! exact IEEE `fmod` on `Float` (Lean has none): integer arithmetic on mantissas
+    (same construction as RV/Model/Orbit.lean) -/
+def decompF (x : Float) : Nat × Int :=
+  let b := x.toBits.toNat
+  let ex := (b >>> 52) % 2048
+  let fr := b % 2 ^ 52
+  if ex == 0 then (fr, -1074) else (fr + 2 ^ 52, (ex : Int) - 1075)
+
+def signBitF (x : Float) : Bool := x.toBits.toNat >>> 63 == 1
+
+def fmodFloat (x y : Float) : Float :=
+  if x.isNaN || y.isNaN || x.isInf || y == 0.0 then 0.0 / 0.0
+  else if y.isInf then x
+  else if x == 0.0 then x
+  else
+    let (mx, ex) := decompF x
+    let (my, ey) := decompF y
+    let (r, er) : Nat × Int :=
+      if ex ≥ ey then ((mx * 2 ^ (ex - ey).toNat) % my, ey)
+      else (mx % (my * 2 ^ (ey - ex).toNat), ex)
+    let v := Float.scaleB (Float.ofNat r) er
+    if signBitF x then -v else v
 
 def bodies (t : Array String) (off n : Nat) : Array (Body Float) :=
   (Array.range n).map fun i =>
@@ -96,11 +120,19 @@ def step (toks : List String) : String :=
     let cfg : Cfg Float := { nActive := nat t[2]!, tpType := nat t[3]! != 0, ignore := nat t[4]!, soft := fl t[6]! }
     outAcc (accComp (kernComp sq g) cfg (bodies t 7 n))
   | "jacobi" :: _ =>
-    if t.size < 3 then "bad-op" else
+    if t.size < 4 then "bad-op" else
     let n := nat t[1]!
-    if t.size != 3 + 4*n then "bad-op" else
-    let g := fl t[2]!
-    outAcc (accJacobi (kernCube sq g) g sq (bodies t 3 n) (Array.replicate n V3.zero))
+    if t.size != 4 + 4*n then "bad-op" else
+    let g := fl t[3]!
+    outAcc (accJacobi (kernCube sq g) g sq (nat t[2]!) (bodies t 4 n) (Array.replicate n V3.zero))
+  | "shear" :: _ =>
+    if t.size < 15 then "bad-op" else
+    let n := nat t[1]!
+    if t.size != 15 + 4*n then "bad-op" else
+    let g := fl t[8]!
+    let cfg : Cfg Float := { nActive := nat t[2]!, tpType := nat t[3]! != 0, ignore := nat t[4]!, soft := fl t[9]! }
+    let gh := ghostListShear fmodFloat ⟨fl t[10]!, fl t[11]!, fl t[12]!⟩ (fl t[13]!) (fl t[14]!) (nat t[5]!) (nat t[6]!) (nat t[7]!)
+    outAcc (accBasic (fun s _ _ => kernCube sq g s) cfg gh (bodies t 15 n))
   | "merc0" :: _ =>
     if t.size < 7 then "bad-op" else
     let n := nat t[1]!
